@@ -245,6 +245,34 @@ func (h *H[T]) Observe() *seqmc.Fail {
 			return seqmc.Failf("String", "String() = %q, want %q", got, w)
 		}
 	}
+	// observers called from inside a walk's callback (read-only re-entrancy on the same tree): the outer
+	// walk must still visit what it visits on its own, and the inner observers must see the whole tree
+	for i, pair := range []struct {
+		walk func(func(T))
+		sl   []int
+	}{{h.T.WalkPreOrder, o.Pre}, {h.T.WalkInOrder, o.In}, {h.T.WalkPostOrder, o.Post}} {
+		var got []int
+		var inner string
+		pair.walk(func(v T) {
+			got = append(got, h.un(v))
+			var a, b, c []int
+			h.T.WalkInOrder(func(x T) { a = append(a, h.un(x)) })
+			h.T.WalkPreOrder(func(x T) { b = append(b, h.un(x)) })
+			for _, x := range h.T.SlicePostOrder() {
+				c = append(c, h.un(x))
+			}
+			str := h.T.String()
+			if inner == "" && (!eq(a, o.In) || !eq(b, o.Pre) || !eq(c, o.Post) || h.T.Len() != len(want) || !h.T.Contains(v)) {
+				inner = fmt.Sprintf("inside the callback for %d: in-order %v pre-order %v post-order %v Len %d String %q", h.un(v), a, b, c, h.T.Len(), str)
+			}
+		})
+		if inner != "" {
+			return seqmc.Failf("Walk:nested-observers", "observers called from the callback of walk %d see a different tree (%s); the tree holds %v", i, inner, want)
+		}
+		if !eq(got, pair.sl) {
+			return seqmc.Failf("Walk:nested-observers", "walk %d whose callback calls other observers of the same tree visits %v, on its own it visits %v", i, got, pair.sl)
+		}
+	}
 	// pre/in/post are three traversals of one binary tree
 	shapes := trees(o.Pre, o.In, o.Post, h.P.Balance)
 	if len(shapes) == 0 {
